@@ -19,7 +19,6 @@ var notApplicable = map[string]string{
 	"C30": "Extrapolation formulas: numerical results (DESIGN §6).",
 	"C31": "Bucket arithmetic: numerical results (DESIGN §6).",
 	"C32": "Monotonicity/containment of interpolated quantiles: numerical (DESIGN §6).",
-	"C35": "Lexer/parser fidelity against an external encoder; generated lexers; no shape clause that is a necessary condition of fidelity (DESIGN §6).",
 }
 
 func writeManifest() {
